@@ -139,13 +139,13 @@ def oracleC08 (c : TCase) : Verdict :=
     let st := c.lines.foldl (fun (s : C08St) t =>
       if s.fail.isSome then s else
       match t.kw with
-      | "bread" =>
+      | "bread" | "cread" =>
         let (err, k) := readChecks t (some s.left)
         (match err with
          | some e => { s with fail := some e }
          | none => { s with left := s.left - k, delivered := s.delivered + k, inBody := true })
-      | "canproceed" =>
-        if t.st != "recvBody" then s else
+      | "canproceed" | "cended" =>
+        if t.st != "recvBody" && t.st != "callRecvBody" then s else
         (match t.res with
          | ["bool", b] => if (b == "true") == (s.left == 0) then s else { s with fail := some s!"complete={b} with {s.left} of {N} bytes outstanding: {t.raw}" }
          | _ => s)
